@@ -1855,6 +1855,7 @@ _verify(VB* self)
 
     if (self->_verify_ro != NULL && self->_verify_generations != NULL) {
         PyObject* generations;
+        PyObject* snapshot;
         PyObject* ro;
         int changed;
 
@@ -1867,14 +1868,22 @@ _verify(VB* self)
         if (generations == NULL)
             return -1;
 
-        changed = PyObject_RichCompareBool(
-          self->_verify_generations, generations, Py_NE);
-        Py_DECREF(generations);
-        if (changed == -1)
-            return -1;
+        /* comparing the generations can run Python code as well (an
+           ``__eq__``) that replaces the snapshot: keep it alive, too */
+        snapshot = self->_verify_generations;
+        if (snapshot != NULL) {
+            Py_INCREF(snapshot);
+            changed = PyObject_RichCompareBool(snapshot, generations, Py_NE);
+            Py_DECREF(snapshot);
+            Py_DECREF(generations);
+            if (changed == -1)
+                return -1;
 
-        if (changed == 0)
-            return 0;
+            if (changed == 0)
+                return 0;
+        } else {
+            Py_DECREF(generations);
+        }
     }
 
     changed_result =
